@@ -159,12 +159,16 @@ func (r *Reconciler) Reconcile(ctx context.Context, request reconcile.Request) (
 		}
 	}
 
-	err = utilserrors.NewAggregate(errs)
-	conditions.UpdateErrorCondition(newStatus, now, err, "")
+	syncErr := utilserrors.NewAggregate(errs)
+	conditions.UpdateErrorCondition(newStatus, now, syncErr, "")
 	conditions.UpdateExtendedDaemonSetReplicaSetStatusCondition(newStatus, now, datadoghqv1alpha1.ConditionTypeLastFullSync, corev1.ConditionTrue, "", "full sync", true, true)
 
 	reqLogger.V(1).Info("Updating ExtendedDaemonSetReplicaSet status")
 	err = r.updateReplicaSet(replicaSetInstance, newStatus)
+	if err == nil {
+		// report the errors of the strategy and of the parallel pod operations, not only those of the status update
+		err = syncErr
+	}
 
 	// Garbage collect the failedPodsBackOff map once per minute,
 	// i.e. whenever the seconds [0,59] is less than the reconcile frequency
